@@ -207,6 +207,12 @@ func (c *channel) sendMsg(req request) (err error) {
 	}()
 
 	err = c.gorumsStream.SendMsg(req.msg)
+	if err == nil && c.streamCtx.Err() != nil {
+		// the stream was cancelled (by a watcher, or because the node was closed) while
+		// the message was being handed to it: the receiver may already have answered the
+		// pending requests of this stream, so this one would never get an answer.
+		err = c.streamCtx.Err()
+	}
 	if err != nil {
 		c.setLastErr(err)
 		c.streamBroken.set()
